@@ -12,6 +12,8 @@ package main
 import (
 	"fmt"
 	"os"
+	"runtime/debug"
+	"strconv"
 )
 
 func main() {
@@ -20,6 +22,18 @@ func main() {
 		os.Exit(2)
 	}
 	cmd, args := os.Args[1], os.Args[2:]
+	switch cmd {
+	case "replay", "drive", "conc", "longoffsets", "measure":
+		// The bulk sub-commands run millions of SMALL calls, 16 at a time.  A call that recurses without end would grow
+		// each worker's stack to the default limit of 1 GB before the runtime gives up; the limit is lowered so that the
+		// process dies quickly and cheaply.  The verdict never comes from this process: ./check re-runs the candidate
+		// calls alone through "run1", under the runtime's default limit (and "extremes" - deep nests - keeps the default).
+		debug.SetMaxStack(256 << 20)
+	case "run1":
+		if mb, err := strconv.Atoi(os.Getenv("VERIF_MAXSTACK_MB")); err == nil && mb > 0 {
+			debug.SetMaxStack(mb << 20) // first pass of the crash attribution; the confirming run uses the default
+		}
+	}
 	switch cmd {
 	case "export":
 		os.Exit(cmdExport(args))
